@@ -123,19 +123,21 @@ def run_random(seed, steps, profile, n):
 
 def phase_mc(c, tier):
     # window (1,2): a commit can be detached within 3-4 blocks; window (2,3): proposals pass through the gap
-    cfgs = ["MC_PoolReorg_quick.cfg", "MC_PoolReorg_quickgap.cfg"] if tier == "quick" else ["MC_PoolReorg_full.cfg", "MC_PoolReorg_fullgap.cfg"]
-    with cf.ThreadPoolExecutor(max_workers=2) as ex:
-        ress = list(ex.map(lambda g: V.tlc(PID, "MC_PoolReorg", g, workers=4, timeout=1700, xmx="6g"), cfgs))
+    # thorough: chains of 4 blocks with one outstanding notification for window (1,2) (1.1 M states), plus both quick models
+    cfgs = ["MC_PoolReorg_quick.cfg", "MC_PoolReorg_quickgap.cfg"] + ([] if tier == "quick" else ["MC_PoolReorg_full.cfg"])
+    # at most 4 TLC workers at any time: one model after the other
+    ress = [V.tlc(PID, "MC_PoolReorg", g, workers=4, timeout=1700, xmx="8g", coverage=(g != "MC_PoolReorg_full.cfg")) for g in cfgs]
     for cfg, res in zip(cfgs, ress):
         if res["violated"]:
             c.violation("model/" + res["violated"], "MC_PoolReorg violates %s in %s" % (res["violated"], cfg),
                         {"kind": "model", "cfg": cfg, "tlc_tail": res["out"][-3000:]})
-        V.require_coverage(res, ACTIONS, cfg)
+        if res["coverage"]:
+            V.require_coverage(res, ACTIONS, cfg)
         c.add_tlc(res, cfg)
     c.set("exhaustive", True)
     muts = list(MUTANTS) if tier == "thorough" else ["keep_orphans", "gap_sticky", "keep_conflicts"]
     caught = {}
-    with cf.ThreadPoolExecutor(max_workers=3) as ex:
+    with cf.ThreadPoolExecutor(max_workers=2) as ex:
         rs = list(ex.map(lambda m: V.tlc(PID, "MC_PoolReorg", "MC_PoolReorg_mut_%s.cfg" % m, workers=2, timeout=1200, coverage=False), muts))
     for m, r in zip(muts, rs):
         if not r["violated"] or (MUTANTS[m] and r["violated"] != MUTANTS[m]):
@@ -164,7 +166,7 @@ def run(tier):
         "transactions entering through another thread during a reorg are accepted as plain submissions in the step in which they first show up",
     ]
     V.build_harness("c12")
-    nh, steps = (12, 60) if tier == "quick" else (72, 120)
+    nh, steps = (12, 60) if tier == "quick" else (48, 120)
     gex = cf.ThreadPoolExecutor(max_workers=1)                   # growth (Node.tla composition): next to the other phases
     gfut = gex.submit(run_growth_node, c, tier)
     with cf.ThreadPoolExecutor(max_workers=1) as bg:
